@@ -342,10 +342,6 @@ def Table.Nodes (t : Table) : Int := t.statNodes
 
 /-! ## `murmur32` -/
 
-/-- The seed `0xf00` that `Cache.Get`/`Delete`/`Evict` pass to `murmur32`.
-LOCAL CONSTANT — to be replaced by a `GoLevel.Gen` constant once `tools/extract` exports it. -/
-def murmurSeed : Nat := 0xf00
-
 /-- The per-word mixing of `murmur32`: `k *= m; k ^= k >> r; k *= m`. -/
 def murmurMix (k : UInt32) : UInt32 :=
   let m := murmurM.toUInt32
@@ -373,7 +369,8 @@ def murmur32 (ns key : UInt64) (seed : UInt32) : UInt32 :=
   let h := h * m
   h ^^^ (h >>> 15)
 
-/-- `murmur32(ns, key, 0xf00)` on naturals (as the driver uses it). -/
-def cacheHash (ns key : Nat) : Nat := (murmur32 ns.toUInt64 key.toUInt64 murmurSeed.toUInt32).toNat
+/-- `murmur32(ns, key, 0xf00)` of `Cache.Get`/`Delete`/`Evict` on naturals (as the driver uses it); the seed is
+`Gen.cacheMurmurSeed`, read off those call sites. -/
+def cacheHash (ns key : Nat) : Nat := (murmur32 ns.toUInt64 key.toUInt64 cacheMurmurSeed.toUInt32).toNat
 
 end GoLevel.CacheT
